@@ -34,6 +34,7 @@ LANGS = ["TRK ", "SRB ", "DEU "]
 FEATURES = ["liga", "calt", "ccmp", "ss01", "kern", "dist", "cpsp", "test", "locl", "rlig"]
 GSUB_TYPES = ["single", "multi", "alt", "lig", "ctx"]
 GPOS_TYPES = ["pos1", "pos2", "posctx"]
+MARK_TYPES = ["markbase", "markmark", "marklig"]
 
 
 class Gen:
@@ -163,6 +164,33 @@ class Gen:
         elif typ == "posctx":
             for _ in range(n):
                 rules.append(self.sibling(rules, self.ctx_rule(True, named_ok)))
+        elif typ in MARK_TYPES:
+            classes = sorted(self.prog["markclasses"])
+            anchor = lambda: [r.randint(-100, 600), r.randint(-200, 800)]  # noqa: E731
+            class_marks = {g for c in classes for gl, _a in self.prog["markclasses"][c] for g in gl}
+            if typ == "markbase":
+                pool = [g for g in G if g not in class_marks]
+            elif typ == "markmark":
+                pool = list(self.marks)
+            else:
+                pool = list(self.ligs)
+            used = set()
+            for _ in range(n):
+                cand = [g for g in pool if g not in used]
+                if not cand:
+                    break
+                gl = r.sample(cand, min(len(cand), 1 if r.random() < 0.6 else 2))
+                used.update(gl)
+                if typ == "marklig":
+                    comps = []
+                    for _c in range(r.randint(1, 3)):
+                        comps.append([[c, anchor()] for c in classes if r.random() < 0.7])
+                    if not any(comps):
+                        comps[0] = [[classes[0], anchor()]]
+                    rules.append({"t": typ, "glyphs": gl, "comps": comps})
+                else:
+                    att = [[c, anchor()] for c in classes if r.random() < 0.8] or [[classes[0], anchor()]]
+                    rules.append({"t": typ, "glyphs": gl, "att": att})
         return rules
 
     def sibling(self, rules, rule):
@@ -253,6 +281,8 @@ class Gen:
         typ = r.choices(types, w)[0]
         if typ in ("ctx", "posctx") and r.random() > self.k["ctx"] * 2:
             typ = types[0]
+        if kind == "gpos" and self.prog.get("markclasses") and r.random() < 0.3:
+            typ = r.choice(MARK_TYPES)
         rules = self.rules_of(typ, r.randint(1, self.k["max_rules"]), named_ok)
         if not rules:
             rules = self.rules_of("single" if kind == "gsub" else "pos1", 2)
@@ -284,6 +314,19 @@ class Gen:
                 self.mark_classes.append(nm)
         for i in range(r.randint(0, self.k["n_classes"])):
             self.prog["classes"][f"c{i}"] = sorted(r.sample(letters[:7], r.randint(2, 3)), key=glyphs.index)
+        # mark classes for mark attachment positioning (each mark in at most one class)
+        self.prog["markclasses"] = {}
+        if self.prog["gdef"] and r.random() < 0.6:
+            pool = list(marks)
+            r.shuffle(pool)
+            for i, nm in enumerate(["TOP", "BOT"][: r.randint(1, 2)]):
+                k = r.randint(1, 2)
+                part, pool = pool[:k], pool[k:]
+                if not part:
+                    break
+                # one or two markClass statements per class (different anchors for different glyphs)
+                stmts = [[[g], [r.randint(-50, 300), r.randint(-100, 700)]] for g in part] if r.random() < 0.5 else [[part, [r.randint(-50, 300), r.randint(-100, 700)]]]
+                self.prog["markclasses"][nm] = stmts
         # language systems
         if r.random() < 0.85:
             ls = [["DFLT", "dflt"]]
@@ -419,6 +462,18 @@ def w_rule(r):
                 tg = [b for _, b in act[1]]
                 tail = " by " + (tg[0] if len(set(tg)) == 1 else "[" + " ".join(tg) + "]")
         return f"{kw} " + " ".join(parts) + tail + ";"
+    if t in ("markbase", "markmark"):
+        g = r["glyphs"]
+        gs = g[0] if len(g) == 1 else "[" + " ".join(g) + "]"
+        kw = "base" if t == "markbase" else "mark"
+        return f"pos {kw} {gs} " + " ".join(f"<anchor {a[0]} {a[1]}> mark @{c}" for c, a in r["att"]) + ";"
+    if t == "marklig":
+        g = r["glyphs"]
+        gs = g[0] if len(g) == 1 else "[" + " ".join(g) + "]"
+        comps = []
+        for comp in r["comps"]:
+            comps.append(" ".join(f"<anchor {a[0]} {a[1]}> mark @{c}" for c, a in comp) if comp else "<anchor NULL>")
+        return f"pos ligature {gs} " + " ligComponent ".join(comps) + ";"
     if t == "pos1":
         g = r["glyphs"]
         return f"pos {g[0] if len(g) == 1 else '[' + ' '.join(g) + ']'} {w_value(r['value'])};"
@@ -443,6 +498,10 @@ def emit(prog):
         L.append(f"languagesystem {s} {l.strip()};")
     for name, members in prog["classes"].items():
         L.append(f"@{name} = [{' '.join(members)}];")
+    for name, stmts in prog.get("markclasses", {}).items():
+        for gl, a in stmts:
+            gs = gl[0] if len(gl) == 1 else "[" + " ".join(gl) + "]"
+            L.append(f"markClass {gs} <anchor {a[0]} {a[1]}> @{name};")
     if prog["gdef"]:
         g = prog["gdef"]
         L.append("table GDEF {")
